@@ -3335,6 +3335,10 @@ class State:
             changes, config_errors = parse_mypy_comments(flags, self.options)
             self.options = self.options.apply_changes(changes)
             self.manager.errors.set_file(self.xpath, self.id, self.options)
+            if not (self.ignore_all or self.options.ignore_errors):
+                # The file may have been registered as ignored from the options as they
+                # were before the inline configuration (raw parse data is applied late).
+                self.manager.errors.ignored_files.discard(self.xpath)
             for lineno, error in config_errors:
                 self.manager.error(lineno, error)
         self.check_for_invalid_options()
